@@ -7,7 +7,7 @@ def run(ctx):
     ctx.make_scratch()
     n = 40 if thorough else 5
     tot = {}
-    for i in range(n):
+    for i in [-1] + list(range(n)):  # -1: the fixed schema of rarely reached shapes (second mask block, flags-only objects, boundary strings)
         cnt, _ = refdiff.run_schema(ctx, i, values=60 if thorough else 25, fills=60 if thorough else 25, tl2=True)
         for k, v in cnt.items():
             tot[k] = tot.get(k, 0) + v
